@@ -149,6 +149,27 @@ func (s *seriesSet) Next() bool {
 	s.pos++
 	return s.pos < len(s.ser)
 }
-func (s *seriesSet) At() storage.Series         { return s.ser[s.pos] }
+func (s *seriesSet) At() storage.Series {
+	if s.q.FaultMode == 0 {
+		return s.ser[s.pos]
+	}
+	return &faultSeries{Series: s.ser[s.pos], q: s.q}
+}
+
+// faultSeries adds fault sites to Labels() and Iterator().
+type faultSeries struct {
+	*Series
+	q *Queryable
+}
+
+func (f *faultSeries) Labels() labels.Labels {
+	f.q.fault("Series.Labels")
+	return f.Series.Labels()
+}
+
+func (f *faultSeries) Iterator() chunkenc.Iterator {
+	f.q.fault("Series.Iterator")
+	return f.Series.Iterator()
+}
 func (s *seriesSet) Err() error                 { return s.err }
 func (s *seriesSet) Warnings() storage.Warnings { return nil }
